@@ -18,8 +18,8 @@ EXTENDS Common, TLC, Json, IOUtils
 
 Rec == ndJsonDeserialize(IOEnv.TRACE)
 
-VARIABLES l, live, cfg, doff, cap
-vars == <<l, live, cfg, doff, cap>>
+VARIABLES l, live, cfg, doff, cap, freed
+vars == <<l, live, cfg, doff, cap, freed>>
 
 Has(r, f) == f \in DOMAIN r
 Viol(prop, pred, t, ok) == IF ok THEN TRUE ELSE PrintT(<<"VIOL", prop, pred, l, t>>)
@@ -64,7 +64,7 @@ EndCheck(e) ==
   /\ Viol("C02", "LiveDisjointAtEnd", 0,
           \A a, b \in DOMAIN live : a # b => Disjoint(Acc(live[a]), Acc(live[b])))
 
-Init == l = 1 /\ live = NoLive /\ cfg = [none |-> TRUE] /\ doff = 0 /\ cap = 0
+Init == l = 1 /\ live = NoLive /\ cfg = [none |-> TRUE] /\ doff = 0 /\ cap = 0 /\ freed = 0
 
 StepReset ==
   LET e == Rec[l] IN
@@ -73,7 +73,7 @@ StepReset ==
      THEN /\ SetupCheck(e.setup, e.obs.doff, e.obs.cap)
           /\ live' = SetupLive(e.setup) /\ doff' = e.obs.doff /\ cap' = e.obs.cap
      ELSE live' = NoLive /\ doff' = 0 /\ cap' = 0
-  /\ cfg' = e.cfg
+  /\ cfg' = e.cfg /\ freed' = 0
   /\ l' = l + 1
 
 StepEv ==
@@ -81,7 +81,18 @@ StepEv ==
   /\ e.ev \in {"call", "ret"}
   /\ Check(live, e, doff, cap)
   /\ live' = Apply(live, e)
-  /\ UNCHANGED <<cfg, doff, cap>>
+  /\ Viol("C13", "NoAccessAfterFree", e.t, freed = 0 \/ (e.ev = "ret" /\ e.op.k = "drop_arena"))
+  /\ UNCHANGED <<cfg, doff, cap, freed>>
+  /\ l' = l + 1
+
+\* the backing memory is being released: exactly once, and no arena step of any thread may follow
+StepUnmount ==
+  LET e == Rec[l] IN
+  /\ e.ev \in {"unmount", "acc", "zero"}
+  /\ IF e.ev = "unmount"
+     THEN Viol("C13", "FreedOnce", e.t, freed = 0) /\ freed' = freed + 1
+     ELSE Viol("C13", "NoAccessAfterFree", e.t, freed = 0) /\ freed' = freed
+  /\ UNCHANGED <<live, cfg, doff, cap>>
   /\ l' = l + 1
 
 StepEnd ==
@@ -90,19 +101,20 @@ StepEnd ==
   /\ EndCheck(e)
   /\ (e.ev = "stuck") =>
         \A k \in 1..Len(e.x.threads) : Viol("C07", IF e.x.kind = "spin" THEN "CallNeverReturns" ELSE "StepBudgetExceeded", e.x.threads[k].t, FALSE)
-  /\ UNCHANGED <<live, cfg, doff, cap>>
+  /\ UNCHANGED <<live, cfg, doff, cap, freed>>
   /\ l' = l + 1
 
 \* the process died (abort / signal) while the arena was executing: it followed bytes that are not its own
 StepDied ==
   /\ Rec[l].ev = "died"
   /\ Viol("C02", "ProcessDied", 0, FALSE)
-  /\ UNCHANGED <<live, cfg, doff, cap>>
+  /\ UNCHANGED <<live, cfg, doff, cap, freed>>
   /\ l' = l + 1
 
-StepSkip == /\ Rec[l].ev \notin {"reset", "call", "ret", "end", "stuck", "died"} /\ l' = l + 1 /\ UNCHANGED <<live, cfg, doff, cap>>
+StepSkip == /\ Rec[l].ev \notin {"reset", "call", "ret", "end", "stuck", "died", "unmount", "acc", "zero"} /\ l' = l + 1
+            /\ UNCHANGED <<live, cfg, doff, cap, freed>>
 
-Next == l <= Len(Rec) /\ (StepReset \/ StepEv \/ StepEnd \/ StepDied \/ StepSkip)
+Next == l <= Len(Rec) /\ (StepReset \/ StepEv \/ StepEnd \/ StepDied \/ StepUnmount \/ StepSkip)
 Spec == Init /\ [][Next]_vars
 
 Consumed == TLCGet("stats").diameter - 1 = Len(Rec)
